@@ -472,6 +472,24 @@ def oracle_composite(nodes, S, B=2):
             return 'InverseTransform.forward is not the inner inverse', {'wrapper': 'inverse', 'symptom': 'forward'}, nodes
         if not (torch.equal(b_, y) and torch.equal(lb, ld)):
             return 'InverseTransform.inverse is not the inner forward', {'wrapper': 'inverse', 'symptom': 'inverse'}, nodes
+        # ... at every nesting depth: Inverse^d(T) is T for even d, T^-1 for odd d (also as a part of a composite)
+        nest = comp
+        for depth in (1, 2, 3, 4):
+            nest = InverseTransform(nest)
+            a, la = nest(y if depth % 2 else x, c)
+            want, lw = (z, ldz) if depth % 2 else (y, ld)
+            if not (torch.equal(a, want) and torch.equal(la, lw)):
+                return 'InverseTransform nested %d deep is not the %s of the innermost transform' % (depth, 'inverse' if depth % 2 else 'forward'), \
+                    {'wrapper': 'inverse', 'symptom': 'nested-depth', 'depth': depth}, nodes
+            b_, lb = nest.inverse(x if depth % 2 else y, c)
+            want, lw = (y, ld) if depth % 2 else (z, ldz)
+            if not (torch.equal(b_, want) and torch.equal(lb, lw)):
+                return 'InverseTransform nested %d deep: .inverse is not the %s of the innermost transform' % (depth, 'forward' if depth % 2 else 'inverse'), \
+                    {'wrapper': 'inverse', 'symptom': 'nested-depth', 'depth': depth}, nodes
+        wrapped = CompositeTransform([parts[0], InverseTransform(InverseTransform(CompositeTransform(parts[1:])))])
+        a, la = wrapped(x, c)
+        if not (torch.equal(a, y) and torch.allclose(la, ld, rtol=0, atol=1e-9)):
+            return 'Inverse(Inverse(T)) inside a composite is not T', {'wrapper': 'inverse', 'symptom': 'nested-depth', 'depth': 2}, nodes
     return None
 
 
